@@ -57,7 +57,7 @@ func TestMain(m *testing.M) {
 		"handle-encrypted", "handle-public", "handle-nosecrets", "derived-handle", "old-output-reaccepted", "subtle-built",
 		"odd-encoding", "odd-encoding-accepted", "odd-encoding-refused", "stream-aad-flipped-before-first-write", "stream-chunk-flipped-after-write",
 		"stream-aad-flipped-before-first-read", "stream-readbuf-flipped-after-read", "read-short-buffer-big-spare", "read-zero-len-buffer", "write-zero-len-chunk",
-		"replay-produce-after-overwrite", "replay-accept-after-overwrite", "replay-reference-checked")
+		"replay-produce-after-overwrite", "replay-accept-after-overwrite", "replay-reference-checked", "prehash-primitives", "second-result-forced")
 	if core.Thorough() {
 		core.DeclareProbes("pooled-key")
 	} else {
@@ -276,18 +276,22 @@ type sample struct{ msg, aux, out []byte }
 
 // prim is one primitive (pair): how to produce an output and how to accept it.
 type prim struct {
-	ent      entry
-	opP, opA string // stable operation names
-	hidx     int
-	det      bool                                      // equal inputs give equal outputs without the RNG
-	produce  func(msg, aux []byte) ([]byte, error)     // Encrypt / ComputeMAC / Sign / ...
-	decrypt  func(ct, aux []byte) ([]byte, error)      // accepting side of encrypting classes: returns the plaintext
-	verify   func(out, msg, aux []byte) error          // accepting side of the other classes
-	derive   func(salt []byte) (*keyset.Handle, error) // key derivation only
-	fitMsg   func(n int) int                           // message lengths the primitive takes (nil: any)
-	stream   streamer                                  // streaming primitives: the multi-step interface
-	lenient  bool                                      // built from an unusual encoding: refusals are observations, not harness trouble
-	samples  []sample
+	ent        entry
+	opP, opA   string // stable operation names
+	hidx       int
+	det        bool                                      // equal inputs give equal outputs without the RNG
+	produce    func(msg, aux []byte) ([]byte, error)     // Encrypt / ComputeMAC / Sign / ...
+	decrypt    func(ct, aux []byte) ([]byte, error)      // accepting side of encrypting classes: returns the plaintext
+	verify     func(out, msg, aux []byte) error          // accepting side of the other classes
+	derive     func(salt []byte) (*keyset.Handle, error) // key derivation only
+	fitMsg     func(n int) int                           // message lengths the primitive takes (nil: any)
+	stream     streamer                                  // streaming primitives: the multi-step interface
+	prep       func(msg []byte) []byte                   // turns a drawn message into the input the operation takes (nil: as drawn)
+	softAccept bool                                      // whether the accepting side takes the output is an observation only
+	noRef      bool                                      // not one of the classes.NewProducer primitives
+	nOut       int                                       // results produced so far
+	lenient    bool                                      // built from an unusual encoding: refusals are observations, not harness trouble
+	samples    []sample
 }
 
 type target struct {
@@ -1620,6 +1624,9 @@ func (w *world) stepPrims(arg int) *prim {
 			break
 		}
 	}
+	if e.class == classes.Signature && e.cat != nil && p.verify != nil && len(w.prims) < 7 {
+		w.prehashPrims(hi, p.verify)
+	}
 	return p
 }
 
@@ -1652,7 +1659,7 @@ func (w *world) useOnce(p *prim, msg, aux []byte, auxNil bool, keepSample, flipp
 	w.obsErr(opP, "err", err)
 	w.setAdd("ops", opP)
 	if err != nil {
-		if !w.faulted && !p.lenient {
+		if !w.faulted && !p.lenient && !w.mayReject {
 			w.fatalf("%s of %s failed in the pristine world: %v", opP, p.ent.name, err)
 		}
 		return nil
@@ -1661,6 +1668,7 @@ func (w *world) useOnce(p *prim, msg, aux []byte, auxNil bool, keepSample, flipp
 		w.r.Probe("spare-fits-output")
 	}
 	call := w.newCall()
+	p.nOut++
 	w.out(opP, call, out, flippable)
 	w.obsOutput(p, opP, out, msg, aux, auxNil)
 	if flippable {
@@ -1760,7 +1768,7 @@ func (w *world) acceptOnce(p *prim, out, msg, aux []byte, auxNil bool, flippable
 	w.obsErr(opA, "err", err)
 	w.setAdd("ops", opA)
 	if err != nil {
-		if !w.faulted && !p.lenient && !w.mayReject {
+		if !w.faulted && !p.lenient && !w.mayReject && !p.softAccept {
 			w.fatalf("%s of %s rejects what %s produced in the pristine world: %v", opA, p.ent.name, p.opP, err)
 		}
 		return
@@ -1801,7 +1809,11 @@ func (w *world) stepOp(arg int) {
 	if p.fitMsg != nil {
 		ml = p.fitMsg(ml)
 	}
-	w.useOnce(p, w.data(ml), w.data(al), al == 0 && arg%2 == 1, true, true)
+	msg := w.data(ml)
+	if p.prep != nil {
+		msg = p.prep(msg)
+	}
+	w.useOnce(p, msg, w.data(al), al == 0 && arg%2 == 1, true, true)
 }
 
 // usePrims: every primitive produces and accepts a fixed input, and accepts again what it produced long ago.
@@ -1809,10 +1821,27 @@ func (w *world) usePrims() {
 	w.mark()
 	canonMsg, canonAux := []byte("the same message every time"), []byte("aux")
 	for _, p := range w.prims {
-		if p.ent.cat != nil && p.ent.cat.Cost >= 2 && len(p.samples) > 0 {
-			// slow signatures: re-verify only
+		msg := canonMsg
+		if p.prep != nil {
+			msg = p.prep(msg)
+		}
+		if p.ent.cat != nil && p.ent.cat.Cost >= 2 {
+			// slow signatures: one signature per primitive and run is enough; after that re-verify only
+			if len(p.samples) == 0 && p.nOut == 0 {
+				w.useOnce(p, msg, canonAux, false, false, false)
+			}
 		} else {
-			w.useOnce(p, canonMsg, canonAux, false, false, false)
+			w.useOnce(p, msg, canonAux, false, false, false)
+			if p.nOut < 2 {
+				// every producing primitive hands out at least two results per run, so that a primitive returning its
+				// own scratch buffer shows up as two results sharing an address range, whatever their contents
+				msg2 := []byte("another message, the second result")
+				if p.prep != nil {
+					msg2 = p.prep(msg2)
+				}
+				w.useOnce(p, msg2, canonAux, false, false, false)
+				w.r.Probe("second-result-forced")
+			}
 		}
 		if (p.decrypt != nil || p.verify != nil) && len(p.samples) > 0 {
 			s := p.samples[0]
